@@ -102,6 +102,21 @@ func rulePublishedMaps(c *Ctx, p *Prog, rule string) {
 					if base, f, ok := FieldLoad(r); ok && recv != nil && rootIs(base, recv) {
 						bad = "it is loaded from the sender's field " + f
 					}
+					// one interprocedural step: an accessor of the sender (w.Header()) that returns one of its fields
+					if call, ok := r.(*ssa.Call); ok && recv != nil {
+						if g := StaticFunc(call.Common()); g != nil && len(g.Blocks) > 0 && len(call.Call.Args) > 0 && rootIs(call.Call.Args[0], recv) {
+							for _, ret := range Returns(g) {
+								if len(ret.Results) == 0 {
+									continue
+								}
+								for _, rr := range Roots(ReturnValue(ret, 0)) {
+									if b2, f2, ok := FieldLoad(rr); ok && len(g.Params) > 0 && rootIs(b2, g.Params[0]) {
+										bad = "it is the sender's field " + f2 + " returned by its accessor " + g.Name() + "()"
+									}
+								}
+							}
+						}
+					}
 				}
 				if bad == "" && recv != nil {
 					EachInstr(fn, func(i ssa.Instruction) {
@@ -329,4 +344,81 @@ func posOfOps(ops []ChanOp) token.Pos {
 		return ops[0].Instr.Pos()
 	}
 	return 0
+}
+
+// ruleShimNilMessages: for each channel of the shim connection on which a
+// nil pointer may be sent (some send value has a nil root), every
+// dereference of a received value in the receiving code must be guarded by a
+// nil test of that value. The goroutines of a connection run outside any
+// recover, so a nil dereference there kills the agent.
+func ruleShimNilMessages(c *Ctx, p *Prog, rule string) {
+	for _, sc := range shimChannels(c, p, rule) {
+		mayNil := ""
+		for _, op := range sc.Ops {
+			if op.Kind != "send" || op.Val == nil {
+				continue
+			}
+			if _, isPtr := op.Val.Type().Underlying().(*types.Pointer); !isPtr {
+				continue
+			}
+			for _, r := range Roots(op.Val) {
+				if IsNilConst(r) {
+					mayNil = FuncName(op.Fn) + " at " + p.Pos(op.Instr.Pos())
+				}
+			}
+		}
+		key := "Connection." + sc.Field + ":nil-safe-receivers"
+		if mayNil == "" {
+			c.OK(rule, key, p, posOfOps(sc.Ops), "no send site can send a nil pointer")
+			continue
+		}
+		bad := ""
+		nrecv := 0
+		for _, op := range sc.Ops {
+			if op.Kind != "recv" || op.Val == nil {
+				continue
+			}
+			nrecv++
+			for _, u := range Refs(op.Val) {
+				deref := false
+				switch x := u.(type) {
+				case *ssa.FieldAddr:
+					deref = x.X == op.Val
+				case *ssa.UnOp:
+					deref = x.Op == token.MUL && x.X == op.Val
+				case *ssa.Call:
+					// method call with the value as receiver of a pointer method that derefs: treat as deref
+					if len(x.Call.Args) > 0 && x.Call.Args[0] == op.Val && x.Call.Signature().Recv() != nil {
+						deref = true
+					}
+				}
+				if !deref {
+					continue
+				}
+				guarded := false
+				for _, g := range GuardingIfs(u) {
+					bo, ok := g.If.Cond.(*ssa.BinOp)
+					if !ok {
+						continue
+					}
+					var other ssa.Value
+					if bo.X == op.Val {
+						other = bo.Y
+					} else if bo.Y == op.Val {
+						other = bo.X
+					}
+					if other == nil || !IsNilConst(other) {
+						continue
+					}
+					if bo.Op == token.NEQ && g.Succ == 0 || bo.Op == token.EQL && g.Succ == 1 {
+						guarded = true
+					}
+				}
+				if !guarded {
+					bad = fmt.Sprintf("%s dereferences the received message at %s without a nil test", FuncName(op.Fn), p.Pos(u.Pos()))
+				}
+			}
+		}
+		c.Check(rule, key, p, posOfOps(sc.Ops), bad == "", fmt.Sprintf("a nil message can be sent (%s); all %d receive site(s) test for nil before dereferencing", mayNil, nrecv), "a nil message can be sent on "+sc.Field+" ("+mayNil+": e.g. shim data [[42]] or [null]) and "+bad+": nil-pointer panic in a goroutine without recover kills the agent")
+	}
 }
